@@ -135,6 +135,10 @@ def read_file_using_fast_csv_reader(source: Union[str, StringIO],
         if is_indices_full or is_values_full:
             start_index = offset_pos
         else:
+            if offset_pos == 0:
+                raise ValueError("no complete record in a window of {} bytes at offset {}: a record is longer than "
+                                 "2 * chunk_row_size * column count bytes (increase chunk_row_size) or a quoted cell "
+                                 "is not terminated".format(chunk_byte_size, chunk_index))
             chunk_index += offset_pos
 
         hasHeader = False
@@ -181,7 +185,8 @@ def fast_csv_reader(source: Union[str, StringIO],
     maxrowcount = np.int64(column_inds.shape[1] - 1)  # -1: minus the first element (0) in the row that created for prefix
     
     index = np.int64(start_index)
-    index_for_end_line = np.int64(0)
+    # nothing before start_index belongs to this call: until a record ends, the caller must resume at start_index
+    index_for_end_line = np.int64(start_index) - 1
     
     col_index = np.int64(0)
     row_index = np.int64(-1) if hasHeader else np.int64(0)
